@@ -170,6 +170,14 @@ func runC11(c *vh.Ctx) {
 		// histories: one interp.Interpreter, several executions (history.go); generated after every other stream so that the
 		// cases above are the same as before for a given seed
 		hists = g.histories(histRaw, lp)
+		// program shapes and resumed reading (shape.go), over the raw files of class special; generated last
+		cases = append(cases, shCorpus(histRaw)...)
+		for i := 0; i < c.N(1500, 20000); i++ {
+			cases = append(cases, g.shapeCase(histRaw))
+		}
+		for i := 0; i < c.N(1200, 15000); i++ {
+			cases = append(cases, g.resumeCase(histRaw))
+		}
 	}
 	for _, cs := range cases {
 		if cs.Awk == "" {
@@ -283,6 +291,14 @@ func dropStatus(a string) string {
 
 func nontrivial(cs *Case, r result) bool {
 	if cs.Sp != nil {
+		if cs.Sp.Fam != "" { // a record was read and BEGIN / END / a rule observed the bookkeeping afterwards
+			for _, l := range strings.Split(r.res.Out, "\n") {
+				if f := strings.Fields(l); len(f) > 3 && strings.HasPrefix(l, "T") && f[len(f)-1] != "" && !strings.Contains(l, " 0 0 0 [] ") {
+					return true
+				}
+			}
+			return false
+		}
 		return strings.Count(r.res.Out, "\nT") >= 1 && len(spFeatures(cs)) > 0
 	}
 	n := 0
